@@ -5,11 +5,13 @@ import BadgerProofs.Props.C12
 
 `validChoice` (BadgerModel/Picker.lean) is evaluated by the mvcc driver on every compaction the
 implementation performs. Here: `validChoice` (+ the index sanity `ChoiceIdxOk` that `validChoice`
-does not look at) gives `CompactOk`; and the maximal chain-overlapping prefix that
-`fillTablesL0ToLbase` takes gives `TopsOldest` on every level 0 of the shape `L0SF` that the engine
-maintains (first a block ordered by smallest key — what `replaceTables` leaves after an L0 → L0
-compaction —, then the tables flushed since, newest last). So the read-preservation theorem needs no
-hypothesis about the choice beyond `validChoice`.
+does not look at) gives `CompactOk`; and the rule of the repaired `fillTablesL0ToLbase` (finding
+F28: the chain-overlapping prefix, or ALL of L0 when a table behind the prefix overlaps its range)
+gives `TopsOldest` in the strongest possible form — the L0 tables left behind share no user key
+with the tables taken — with no assumption about the order of the L0 tables, which `Open` re-sorts
+by file id. So the read-preservation theorem needs no hypothesis about the choice beyond
+`validChoice`. (`L0SF` below, the shape of an L0 that is never re-sorted, is kept as a fact about
+such runs; nothing depends on it any more.)
 -/
 namespace Badger
 
@@ -64,38 +66,94 @@ theorem C14_l0sf_compact {s s' : Lsm} {cd : CompactDef} {d n now : Nat} (h : Lsm
     (hsf : L0SF s) (hs : s.compact cd d n now = some s') : L0SF s' :=
   LL.l0sf_compact h hc hsf hs
 
-/-- (a) the maximal-prefix rule of `fillTablesL0ToLbase` (`l0PrefixLen`) gives exactly the side
-    condition `TopsOldest` of `C12_compact_reads_weak`, on every level 0 of shape `L0SF` — no
-    `Layered`, no assumption that L0 is in age order. -/
-theorem C12_validChoice_topsOldest {s : Lsm} {cd : CompactDef} (h : LsmInv s) (hsf : L0SF s)
+/-- (a) the repaired picker (F28: the chain-overlapping prefix, or all of L0 when a table behind it
+    overlaps) never leaves behind an L0 table whose key range overlaps the tables it takes -/
+theorem C12_validChoice_noLeftBehind {s : Lsm} {cd : CompactDef} (htop : cd.top ≠ [])
+    (hvc : validChoice s cd = true) (hk : IsL0Lbase s cd) : LL.cdLeftBehind s cd = false :=
+  LL.validChoice_noLeftBehind hvc htop hk.1 (by have := hk.2.1; omega)
+
+/-- (a) hence the side condition `TopsOldest` of the L0 → Lbase theorems: the tables left in L0
+    share no user key with the tops — with NO assumption about the order of L0 (so it survives the
+    re-sort by file id that `Open` performs). -/
+theorem C12_validChoice_topsOldest {s : Lsm} {cd : CompactDef} (h : LsmInv s)
     (hth : cd.thisLevel < s.levels.length) (htop : cd.top ≠ []) (hvc : validChoice s cd = true)
-    (hk : IsL0Lbase s cd) : TopsOldest s cd := by
-  obtain ⟨m, hm⟩ := hsf
-  have h0 := hk.1
-  have hthisT : cdThisT s cd = s.levels.getD 0 [] := by unfold cdThisT; rw [h0]
-  rcases LL.validChoice_cases hvc htop with ⟨_, hn, _⟩ | ⟨_, _, ht, _, _⟩ | ⟨hne, _⟩ | ⟨hne, _⟩
-  · have := hk.2.1; omega
-  · by_cases hdp : cd.dropPrefixes.isEmpty = true
-    · rw [if_pos hdp] at ht
-      exact LL.topsOldest_of_prefix h (by rw [hthisT]; exact hm) hth ht htop
-    · rw [if_neg hdp] at ht
-      intro t htm
-      rw [ht, LL.removeIdx_range] at htm
-      simp at htm
-  · exact absurd h0 hne
-  · exact absurd h0 hne
+    (hk : IsL0Lbase s cd) : TopsOldest s cd :=
+  LL.topsOldest_of_noLeftBehind h hth hk.1 (C12_validChoice_noLeftBehind htop hvc hk)
 
 /-- C12 with the choice hypothesis replaced by the run-time-checked predicate: every compaction the
     pickers can choose preserves every read at `ts ≥ discardTs`, in every state of the kind the
     engine maintains. -/
 theorem C12_compact_reads_valid {s s' : Lsm} {cd : CompactDef} {d n now' now ts : Nat} {k : Bytes}
-    (h : LsmInv s) (hv : VerBound s) (hl : LayeredX s) (hu : KeyVerUnique s) (hsf : L0SF s)
+    (h : LsmInv s) (hv : VerBound s) (hl : LayeredX s) (hu : KeyVerUnique s)
     (hi : ChoiceIdxOk s cd) (htop : cd.top ≠ []) (hvc : validChoice s cd = true)
     (hdp : cd.dropPrefixes = []) (hs : s.compact cd d n now' = some s') (hts : d ≤ ts) (hnow : now' ≤ now) :
     visible now (s'.get k ts) = visible now (s.get k ts) := by
   have hc := C12_validChoice_compactOk h hv hi htop hvc
-  exact C12_compact_reads_weak h hv hl hc (fun hk => C12_validChoice_topsOldest h hsf hi.1 htop hvc hk)
+  exact C12_compact_reads_weak h hv hl hc (fun hk => C12_validChoice_topsOldest h hi.1 htop hvc hk)
     (fun _ => LL.tblsFun_of_unique hu h hc.1) hdp hs hts hnow
+
+/-! ## finding F28 and its repair -/
+
+def C12_f28CdAll : CompactDef :=
+  { thisLevel := 0, nextLevel := 1, top := [0, 1], bot := [], outSizes := [], dropPrefixes := [] }
+def C12_f28StateAll' : Lsm :=
+  { mem := [], imm := [], levels := [[], []] }
+
+/-- F28, repaired in the picker: on the F28 state (L0 = [ {1@2 marker}, {1@1 ↦ 42} ], newer table
+    first) the choice `top = [0]` that resurrected `1@1` (`C12_L0Lbase_needs_topsOldest`) is no longer
+    a choice of the picker — the table behind the prefix overlaps its range, so ALL of L0 is taken;
+    that compaction drops the marker TOGETHER with the version it shadows and preserves the read. -/
+theorem C12_f28_picker_rejects :
+    validChoice C12_f28State C12_f28Cd = false ∧
+    ChoiceIdxOk C12_f28State C12_f28CdAll ∧ validChoice C12_f28State C12_f28CdAll = true ∧
+    C12_f28State.compact C12_f28CdAll 5 1 0 = some C12_f28StateAll' ∧
+    visible 0 (C12_f28StateAll'.get [1] 9) = visible 0 (C12_f28State.get [1] 9) := by
+  refine ⟨by decide, by decide, by decide, by lsm_decide, by decide⟩
+
+/-! Why the picker had to change: the first candidate repair kept the picker and forced
+`hasOverlap := true` in an L0 → Lbase compaction that leaves an overlapping L0 table behind. That
+keeps the marker in THAT step but moves it BELOW the older version it shadows, destroying the
+recency invariant every deeper compaction relies on. -/
+
+/-- L0 as sorted by file id after a reopen: marker `1@5`, an unrelated table, the old `1@1 ↦ 42` -/
+def C12_f28bS0 : Lsm :=
+  { mem := [], imm := [],
+    levels := [[{ ents := [⟨[1], 5, 1, 0, 0, []⟩] }, { ents := [⟨[3], 1, 0, 0, 0, [3]⟩] },
+                { ents := [⟨[1], 1, 0, 0, 0, [42]⟩] }], [], []] }
+def C12_f28bCdA : CompactDef :=
+  { thisLevel := 0, nextLevel := 1, top := [0], bot := [], outSizes := [1], dropPrefixes := [] }
+/-- what that candidate repair produced from `C12_f28bS0`: the marker, kept, now in L1 -/
+def C12_f28bS1 : Lsm :=
+  { mem := [], imm := [],
+    levels := [[{ ents := [⟨[3], 1, 0, 0, 0, [3]⟩] }, { ents := [⟨[1], 1, 0, 0, 0, [42]⟩] }],
+               [{ ents := [⟨[1], 5, 1, 0, 0, []⟩] }], []] }
+def C12_f28bCdB : CompactDef :=
+  { thisLevel := 1, nextLevel := 2, top := [0], bot := [], outSizes := [], dropPrefixes := [] }
+def C12_f28bS2 : Lsm :=
+  { mem := [], imm := [],
+    levels := [[{ ents := [⟨[3], 1, 0, 0, 0, [3]⟩] }, { ents := [⟨[1], 1, 0, 0, 0, [42]⟩] }], [], []] }
+
+/-- the `hasOverlap` repair of F28 is insufficient. Step A (L0 → L1 of the chain prefix `[0]` of
+    `C12_f28bS0`, with `hasOverlap` forced to `true` because the table left behind overlaps) writes
+    exactly the marker — the state `C12_f28bS1`, which is structurally fine but no longer `LayeredX`
+    (the newer `1@5` lies below the older `1@1`). Step B, an ordinary picker-valid L1 → L2 compaction
+    of that marker, finds nothing below (`hasOverlap = false`) and drops it: key 1 reads 42 again.
+    (The repaired picker never makes step A: `validChoice C12_f28bS0 C12_f28bCdA = false`.) -/
+theorem C12_f28_hasOverlap_repair_insufficient :
+    -- step A under the candidate repair writes the marker …
+    subcompact { discardTs := 6, numKeep := 1, hasOverlap := true, now := 0, dropPrefixes := [] }
+      (LL.cdMerged C12_f28bS0 C12_f28bCdA) = [⟨[1], 5, 1, 0, 0, []⟩] ∧
+    -- … into a state that is well formed but not layered,
+    LsmInv C12_f28bS1 ∧ VerBound C12_f28bS1 ∧ KeyVerUnique C12_f28bS1 ∧ ¬ LayeredX C12_f28bS1 ∧
+    -- from which an ordinary valid compaction resurrects the deleted key
+    ChoiceIdxOk C12_f28bS1 C12_f28bCdB ∧ validChoice C12_f28bS1 C12_f28bCdB = true ∧
+    C12_f28bS1.compact C12_f28bCdB 6 1 0 = some C12_f28bS2 ∧
+    visible 0 (C12_f28bS0.get [1] 9) = none ∧ visible 0 (C12_f28bS1.get [1] 9) = none ∧
+    visible 0 (C12_f28bS2.get [1] 9) = some ⟨[1], 1, 0, 0, 0, [42]⟩ ∧
+    validChoice C12_f28bS0 C12_f28bCdA = false := by
+  refine ⟨?_, by decide, by decide, by decide, by decide, by decide, by decide, by lsm_decide, by decide,
+    by decide, by decide, by decide⟩
+  simp only [LL.cdMerged, mergeAll_eq_F]; decide
 
 /-! non-vacuity: the production choice on a three-table L0 whose first two tables chain-overlap -/
 def C12_choiceState : Lsm :=
